@@ -1,8 +1,7 @@
 import LocustModel.Store.Proto
 /-
   Driver for C13.  Input: a history line (see `LocustModel/Store/Proto.lean`) whose column names come from the
-  C13 name pool.  Output:  <model dump> TAB <spec dump> [TAB compaction-null-loss]
-    (third field: classifier of the open C07 finding — a compaction merged rows containing a NULL cell)
+  C13 name pool.  Output:  <model dump> TAB <spec dump>
     spec dump: every table / column ever ingested listed exactly once (`MT=`, `MC<t>=`, `SC<t>=` =
     search_column_names(t, ".*"), column list of `T<t>=`),
     cells of columns a batch did not mention are NULL.
@@ -16,7 +15,7 @@ def step (line : String) : String :=
   | some (s, _) =>
     let hasUsers := !(userTables s).isEmpty
     dumpModel s ++ (if hasUsers then dumpSearchModel s else "") ++ "\t" ++
-      dumpSpec s ++ (if hasUsers then dumpSearchSpec s else "") ++ (if s.nullCompacted then "\tcompaction-null-loss" else "")
+      dumpSpec s ++ (if hasUsers then dumpSearchSpec s else "")
 
 end LM.DrvC13
 
